@@ -292,8 +292,11 @@ def compare_call_execute(base):
                 why = "RetryExhaustedError(f) <-> outcome fields f"
             elif e.cls is not None and e.cls.name == "AbortRetryError":
                 o = cb[1] if cb[0] == "ok" else None
-                ok = o is not None and isinstance(o, Obj) and o.fields.get("ok") is False and isinstance(o.fields["stop_reason"], EnumVal) \
-                    and it.enum_concrete_name(o.fields["stop_reason"]) == "ABORTED"
+                if o is not None and isinstance(o, Obj) and o.fields.get("ok") is False:
+                    sr_cls = it.tree.cls("redress.errors:StopReason")
+                    ok = eq_formula(tr(o.fields["stop_reason"]), it.enum_const(sr_cls, "ABORTED"))
+                else:
+                    ok = False
                 why = "AbortRetryError <-> stop_reason ABORTED"
             elif e.tag == "func":
                 # the operation's own exception: either execute reports it (ordinary failure) or lets the same object escape
@@ -308,7 +311,11 @@ def compare_call_execute(base):
                     ok = cb[1] is e or same_tr(tr(cb[1].ident), tr(e.ident))
                     why = "a propagating exception propagates from both"
             else:
-                ok = cb[0] == "exc" and cb[1].tag == e.tag and same_tr(tr(cb[1].ident), tr(e.ident))
+                if e.tag in ("raised-by-code", "sleep_fn-invalid-return"):
+                    # an exception object constructed by the library on both sides: same class, same origin
+                    ok = cb[0] == "exc" and cb[1].tag == e.tag and same_tr(tr(cb[1].cls_t), tr(e.cls_t))
+                else:
+                    ok = cb[0] == "exc" and cb[1].tag == e.tag and same_tr(tr(cb[1].ident), tr(e.ident))
                 why = "any other escaping exception <-> the same exception escapes"
         p.oblige(f"{base}/delivery-relation", ok, prop=P, detail={"why": why, "call": str(deliver_terms(ca))[:160], "execute": str(deliver_terms(cb))[:160]})
         p.cover(f"{base}/path-compared")
